@@ -114,9 +114,12 @@ def checkCase (j : Json) : Except String Verdict := do
     let ro := getJ ora "redirect"
     let parsed : ParsedURL := { ok := boolD ro "goOK", host := strD ro "goHost", hostname := (strD ro "goHostname").toList }
     let sg := getJ st "signed"
+    -- timestamp parsing and MAC equality are oracles evaluated on the values net/http's ParseForm hands the handlers
+    let rdo := getJ ora "read"
     let sigIn : SigIn :=
-      { uri := redirect, sig := first (formVals "sig"), ts := first (formVals "ts"), uriParses := boolD ro "goOK", sigDecodes := true, tsValue := if boolD sg "tsParses" then some (0 - intD sg "age") else none, macEqual := boolD sg "macOK" }
+      { uri := redirect, sig := first (formVals "sig"), ts := first (formVals "ts"), uriParses := boolD ro "goOK", sigDecodes := true, tsValue := if boolD rdo "tsParses" then some (0 - intD rdo "age") else none, macEqual := boolD rdo "macOK" }
     let r : Req := { method := method, clientID := clientID, clientSecret := clientSecret, redirect := redirect, redirectParsed := parsed, sig := sigIn, acceptJSON := strD hdrs "Accept" == "application/json", formOK := true }
+    v := v.cmp idx "request.read" (redirect, sigIn.sig, sigIn.ts) (strD rdo "redirect_uri", strD rdo "sig", strD rdo "ts") ["C07", "C19"]
     let presented := getJ st "presented"
     let cookie : CookieIn := match strD presented "kind" with
       | "sess" => (match sessOf (getJ presented "sess") with | some s => .opens s | none => .junk)
@@ -240,6 +243,8 @@ def checkCase (j : Json) : Except String Verdict := do
       let signedFresh := !sg.isNull && boolD sg "genuine" && boolD sg "tsParses" && intD sg "age" ≤ 300
       if boolD loc "hasCode" && !signedFresh then v := v.mon "C07" "code_only_if_signed_fresh" idx
       if endpoint == "sign_out" && !toSelf && !signedFresh then v := v.mon "C07" "signout_redirect_only_if_signed_fresh" idx
+      if endpoint == "sign_out" && !toSelf && strD loc "raw" != strD sg "uri" then
+        v := v.mon "C07" "signout_redirect_is_the_signed_uri" idx s!"{strD loc "raw"} vs signed {strD sg "uri"}"
       if endpoint == "start" && toIdp then
         if (getJ inp "startOf").isNull || strD inp "startOf" == "" then v := v.mon "C07" "idp_login_only_if_signed_fresh" idx
     -- C08: the four back-channel endpoints act only for exact client credentials
